@@ -970,7 +970,7 @@ func evDesc(ev vaxis.Event) (string, interface{}) {
 	return "TOther", fmt.Sprintf("%T", ev)
 }
 
-func outStep(ps ...piece) hstep { return hstep{out: ps} }
+func outStep(ps ...piece) hstep   { return hstep{out: ps} }
 func evStep(ev vaxis.Event) hstep { return hstep{ev: ev} }
 func evSteps(evs ...vaxis.Event) []hstep {
 	out := make([]hstep, len(evs))
@@ -1168,37 +1168,40 @@ func (h *harness) genHist() {
 		}
 		return ps
 	}
+	// one history: the gesture g, then the child switches mode n (on, off, on ... — alone, in a parameter list, or off
+	// by a full reset), then g again, and so on, all on ONE emulator; `mixed` lets another gesture follow now and then
+	toggle := func(n int, g []vaxis.Event, how int, on bool, mixed bool, tags ...string) {
+		var steps []hstep
+		if ps := prelude(n); len(ps) > 0 {
+			steps = append(steps, outStep(ps...))
+		}
+		if !on {
+			steps = append(steps, evSteps(g...)...) // before the child said anything
+		}
+		for k := 3 + h.pick(3); k > 0; k-- {
+			ps := []piece{h.switchMode(n, on, how)}
+			if how == 2 && !on {
+				ps = append(ps, prelude(n)...) // a full reset also removed what made the mode observable
+			}
+			if h.pick(4) == 0 {
+				ps = append(ps, h.distractor())
+			}
+			steps = append(steps, outStep(ps...))
+			steps = append(steps, evSteps(g...)...)
+			if mixed && h.pick(3) == 0 {
+				steps = append(steps, evSteps(h.gestureFor(n)...)...)
+			}
+			on = !on
+		}
+		h.addHist(steps, tags...)
+	}
 	for rep := 0; rep < reps; rep++ {
 		for _, n := range modes {
 			// A. the same gesture while the child switches the mode on, off, on, off ... on ONE emulator; the
 			//    mode is switched alone, in a parameter list, or off by a full reset
 			for how := 0; how < 3; how++ {
 				for first := 0; first < 2; first++ {
-					g := h.gestureFor(n)
-					var steps []hstep
-					if ps := prelude(n); len(ps) > 0 {
-						steps = append(steps, outStep(ps...))
-					}
-					on := first == 0
-					if !on {
-						steps = append(steps, evSteps(g...)...) // before the child said anything
-					}
-					for k := 3 + h.pick(3); k > 0; k-- {
-						ps := []piece{h.switchMode(n, on, how)}
-						if how == 2 && !on {
-							ps = append(ps, prelude(n)...) // a full reset also removed what made the mode observable
-						}
-						if h.pick(4) == 0 {
-							ps = append(ps, h.distractor())
-						}
-						steps = append(steps, outStep(ps...))
-						steps = append(steps, evSteps(g...)...)
-						if h.pick(3) == 0 {
-							steps = append(steps, evSteps(h.gestureFor(n)...)...)
-						}
-						on = !on
-					}
-					h.addHist(steps, "toggle", fmt.Sprintf("toggle-how-%d", how))
+					toggle(n, h.gestureFor(n), how, first == 0, true, "toggle", fmt.Sprintf("toggle-how-%d", how))
 				}
 			}
 			// B. the child changes its mind in the middle of a gesture (between paste start and paste end,
@@ -1223,6 +1226,82 @@ func (h *harness) genHist() {
 			}
 		}
 	}
+	// E. the SAME event on both sides of a mode change with no other event in between (what a user who holds a key
+	//    down, or a program that repeats a report, produces), for every way a mode can change — DECSET / DECRST alone,
+	//    in a parameter list with companions, ESC = / ESC >, a full reset, the alternate-screen switches 1049 / 47 /
+	//    1047 — and for every kind of event: every cursor, editing, function and keypad key, keys that produce text,
+	//    pasted keys, the paste boundaries, presses, releases, motion and the wheel.  The modes switched are the ones
+	//    that govern the event and, for keys, also modes that must not matter.
+	{
+		var ks []vaxis.Key
+		for _, c := range specialKeys {
+			ks = append(ks, vaxis.Key{Keycode: c})
+		}
+		for c := vaxis.KeyKeyPad0; c <= vaxis.KeyKeyPadBegin; c++ {
+			ks = append(ks, vaxis.Key{Keycode: c})
+		}
+		for _, c := range []rune{vaxis.KeyEnter, vaxis.KeyTab, vaxis.KeyEsc, vaxis.KeyBackspace, vaxis.KeySpace, 'a', ';', '5', '~'} {
+			k := vaxis.Key{Keycode: c}
+			if c >= 0x20 && c < 0x7f {
+				k.Text = string(c)
+			}
+			ks = append(ks, k)
+		}
+		keyModes := []int{1, '='}
+		idle := []int{2004, 1000, 1006, 1049, 47, 1047, 1007}
+		for _, k := range ks {
+			for _, n := range keyModes {
+				for how := 0; how < 3; how++ {
+					if thorough {
+						toggle(n, []vaxis.Event{k}, how, false, false, "same-event", "same-key")
+						toggle(n, []vaxis.Event{k}, how, true, false, "same-event", "same-key")
+					} else {
+						toggle(n, []vaxis.Event{k}, how, h.pick(2) == 0, false, "same-event", "same-key")
+					}
+				}
+			}
+			// with modifiers (the chord forms carry the modifier in a parameter; the cursor-key mode must not matter
+			// for them), as a pasted key, and across modes that have nothing to do with keys
+			km := k
+			km.Modifiers = vaxis.ModifierMask(1 + h.pick(7))
+			if k.Text != "" {
+				if k.Keycode != 'a' {
+					km.Modifiers &= vaxis.ModShift | vaxis.ModAlt // Ctrl chords outside the xterm table: keys stream (needs the unicode oracle)
+					if km.Modifiers == 0 {
+						km.Modifiers = vaxis.ModAlt
+					}
+				}
+				km = hostKey(k.Keycode, km.Modifiers)
+			}
+			toggle(keyModes[h.pick(2)], []vaxis.Event{km}, h.pick(3), h.pick(2) == 0, false, "same-event", "same-chord")
+			toggle(idle[h.pick(len(idle))], []vaxis.Event{[]vaxis.Key{k, km}[h.pick(2)]}, h.pick(3), h.pick(2) == 0, false, "same-event", "same-key-idle-mode")
+			if thorough || h.pick(4) == 0 {
+				kp := k
+				kp.EventType = vaxis.EventPaste
+				toggle([]int{2004, 1, '='}[h.pick(3)], []vaxis.Event{kp}, h.pick(3), h.pick(2) == 0, false, "same-event", "same-pasted-key")
+			}
+		}
+		for how := 0; how < 3; how++ {
+			for first := 0; first < 2; first++ {
+				for _, ev := range []vaxis.Event{vaxis.PasteStartEvent{}, vaxis.PasteEndEvent{}} {
+					toggle(2004, []vaxis.Event{ev}, how, first == 0, false, "same-event", "same-paste-boundary")
+				}
+				for _, n := range []int{1000, 1002, 1003, 1006, 1007, 1049, 47, 1047} {
+					col, row := h.pick(200), h.pick(60)
+					btn := buttons[h.pick(3)]
+					for _, ev := range []vaxis.Event{
+						vaxis.Mouse{Button: btn, Col: col, Row: row, EventType: vaxis.EventPress},
+						vaxis.Mouse{Button: btn, Col: col, Row: row, EventType: vaxis.EventRelease},
+						vaxis.Mouse{Button: btn, Col: col, Row: row, EventType: vaxis.EventMotion},
+						vaxis.Mouse{Button: vaxis.MouseNoButton, Col: col, Row: row, EventType: vaxis.EventMotion},
+						vaxis.Mouse{Button: []vaxis.MouseButton{vaxis.MouseWheelUp, vaxis.MouseWheelDown}[h.pick(2)], Col: col, Row: row, EventType: vaxis.EventPress},
+					} {
+						toggle(n, []vaxis.Event{ev}, how, first == 0, false, "same-event", "same-mouse")
+					}
+				}
+			}
+		}
+	}
 	// C. random histories: a small pool of events handed to the emulator again and again while the child writes
 	//    mode-setting control functions (1-4 parameters from all pools), keypad switches, full resets, text and
 	//    other control functions in between
@@ -1241,6 +1320,7 @@ func (h *harness) genHist() {
 			evPool = append(evPool, h.anyEvent())
 		}
 		var steps []hstep
+		var lastEv vaxis.Event
 		for k := 3 + h.pick(5); k > 0; k-- {
 			var ps []piece
 			for j := 1 + h.pick(3); j > 0; j-- {
@@ -1260,8 +1340,12 @@ func (h *harness) genHist() {
 				}
 			}
 			steps = append(steps, outStep(ps...))
+			if lastEv != nil && h.pick(3) == 0 {
+				steps = append(steps, evStep(lastEv)) // the same event on both sides of the child's output
+			}
 			for j := 1 + h.pick(3); j > 0; j-- {
-				steps = append(steps, evStep(evPool[h.pick(len(evPool))]))
+				lastEv = evPool[h.pick(len(evPool))]
+				steps = append(steps, evStep(lastEv))
 			}
 		}
 		h.addHist(steps, "random")
